@@ -237,6 +237,7 @@ def run(chk):
     for key, route, label in CODECS:
         round_trip(chk, eng, key, route, label)
     options_present(chk, eng)
+    output_parsers(chk)
     chk.engine_stats = dict(eng.stats)
     chk.notes.append("normal form N: optional '' == absent; optional object with all fields absent == absent; JSON route: timestamps within 1 ms, exact on ms-aligned instants")
 
@@ -259,3 +260,56 @@ def strict_error_roundtrip(chk, prefix):
                 goal = z3.And([nf.equal(s2, so[f], s2, sb[f], ann, owner.module) for f, ann, _, owner in cls.fields()])
             chk.prove(f"{prefix}.error.wire_exact", s2.pc, goal, desc="a recorded error object survives the wire exactly (message/type/data: '' is not turned into None), so the replayed exception text equals the first one",
                       describe=describe_factory(o, s2), replay=replay_factory(cls, "dict"))
+
+
+def output_parsers(chk):
+    """CheckpointOutput.from_dict / StateOutput.from_dict: the backend's answers are parsed into exactly the records they carry (generic element),
+    the token and the marker - these feed the state merge of C01"""
+    eng = Engine(hooks=codec_hooks())
+    P = eng.program
+    op_cls = P.cls("lambda_service.Operation")
+    nf = NF(eng)
+    for which in ("CheckpointOutput", "StateOutput"):
+        cls = P.cls("lambda_service." + which)
+        chk.function(f"lambda_service.{which}.from_dict")
+        st = St()
+        op = eng.sym_of_type("Operation", "op_i", st, op_cls.module)
+        wire = eng.run(op_cls.find_method("to_dict"), [op], st=st)
+        assert len(wire) == 1 and wire[0][0] == "val"
+        d_op, st = wire[0][1], wire[0][2]
+        n = z3.Int("n_ops")
+        st.assume(n >= 0)
+        ops_list = st.alloc("list", {"__kind__": "glist", "len": n, "elem": d_op})
+        marker = fresh("str", "marker")
+        p_ops, p_marker = z3.Bool("has_ops"), z3.Bool("has_marker")
+        page = st.alloc("dict", {"__kind__": "dict", "open": False, "e": {"Operations": (p_ops, ops_list), "NextMarker": (p_marker, marker)}})
+        if which == "CheckpointOutput":
+            token = fresh("str", "token")
+            p_tok, p_nes = z3.Bool("has_token"), z3.Bool("has_state")
+            data = st.alloc("dict", {"__kind__": "dict", "open": False, "e": {"CheckpointToken": (p_tok, token), "NewExecutionState": (p_nes, page)}})
+        else:
+            data = page
+        for k, v, s in eng.run(cls.find_method("from_dict"), [ClassRef(cls), data], st=st):
+            chk.paths += 1
+            ok = k == "val" and isinstance(v, Ref)
+            goal = z3.BoolVal(ok)
+            if ok:
+                r = s.get(v)
+                if which == "CheckpointOutput":
+                    goal = z3.And(goal, ops.values_equal(s, r["checkpoint_token"], Sym("str", z3.If(p_tok, token.t, z3.StringVal("")))))
+                    inner = s.get(r["new_execution_state"])
+                    present = z3.And(p_nes, z3.Or(p_ops, p_marker))  # an empty NewExecutionState dict is falsy -> default empty state
+                    have_ops = z3.And(p_nes, p_ops, n > 0)
+                    have_marker = z3.And(p_nes, p_marker)
+                else:
+                    inner = r
+                    have_ops = z3.And(p_ops, n > 0)
+                    have_marker = p_marker
+                lst = s.get(inner["operations"])
+                if lst.get("__kind__") == "glist":
+                    el_ok = nf.equal(s, op, s, lst["elem"], "Operation", op_cls.module)
+                    goal = z3.And(goal, have_ops, lst["len"] == n, el_ok)
+                else:
+                    goal = z3.And(goal, z3.Not(have_ops), z3.BoolVal(len(lst["items"]) == 0))
+                goal = z3.And(goal, z3.If(have_marker, ops.values_equal(s, inner["next_marker"], marker), is_none(inner["next_marker"])))
+            chk.prove(f"C20.{which.lower()}.from_dict", s.pc, goal, desc=f"{which}.from_dict: every operation of the answer is parsed (N-equal to the operation whose wire form it is), in order; token (\"\" if absent) and NextMarker (None if absent) are taken over")
